@@ -533,7 +533,11 @@ class ExpRun:
 def gen_exp_case(r, tier):
     sc = zoo.gen_exp_scenario(r)
     sc["iface"] = "exp"
+    if sc["kind"] in ("MH", "CWMH", "MALA", "ULA", "NUTS", "PCN") and "initial_point" in sc["knobs"] and r.random() < 0.06 \
+            and sc["target"].get("kind") != "post_fd" and not sc["knobs"].get("ip_int") and not sc["knobs"].get("ip_cuqiarray"):
+        sc["knobs"]["ip_f32"] = True              # a single-precision start vector (C14 compares like with like, bitwise)
     if sc["target"].get("kind") == "post_mapped" and "initial_point" in sc["knobs"] and r.random() < 0.5:
+        sc["knobs"].pop("ip_f32", None)
         sc["knobs"].pop("ip_int", None)
         sc["knobs"]["ip_funvals"] = True
     sc["W"] = r.choice([0, 0, 3, 7, 12])
@@ -564,6 +568,8 @@ def gen_exp_case(r, tier):
             ops.append({"op": "crash_in_step", "j": r.randint(0, 3 * n)})
         elif x < 0.40 and sc["cb"]:
             ops.append({"op": "callback_raises", "k": r.randint(0, n - 1)})
+        elif x < 0.46:
+            ops.append({"op": "sample", "n": 0})          # a zero-length run in the middle of the chain changes nothing
         ops.append({"op": "sample", "n": n})
         if r.random() < 0.12:
             ops[-1]["batch"] = r.randint(1, max(1, n))
